@@ -188,6 +188,8 @@ verus! {
    SUB(from=ItemPtr::from(item.as_ref());;to=vx_item_ptr(item))
    SUB(from=ptr: ItemPtr;;to=ptr: &'a Item)
    SUB(from=BlockSlice::GC(s) | BlockSlice::Skip(s) => s.trim_start(count),;;to=BlockSlice::GC(s) => s.trim_start(count), BlockSlice::Skip(s) => s.trim_start(count),)
+   SUB(from=BlockSlice::GC(s) | BlockSlice::Skip(s) => s.trim_end(count),;;to=BlockSlice::GC(s) => s.trim_end(count), BlockSlice::Skip(s) => s.trim_end(count),)
+   SUB(from=for (&client_id, &clock) in sv.iter() {;;to=for (vx_c, vx_k) in sv.iter() { let client_id: ClientID = *vx_c; let clock: u32 = *vx_k;)
    SUB(from=.map(|(client_id, list)| (*client_id, list.clock()));;to=)
 @*/
 
@@ -534,26 +536,6 @@ pub proof fn lemma_block_of(s: Seq<Block>, clock: int, i: int, j: int)
     }
 }
 
-/// WEAKEST PRECONDITION of `find_index` (besides list_wf), derived from the code:
-///  * `clock == last.start`: the early return;
-///  * otherwise `first.start <= clock` (else `right = mid - 1` underflows at mid == 0), and if `clock` lies beyond the last
-///    clock `end` of the list: `end != 0` (else `clock / end` divides by zero) and the interpolated first probe
-///    `mid = (clock / end) * right` must be a valid index: `right == 0` or `clock / end == 1`, i.e. `clock < 2 * end`.
-pub open spec fn fi_safe(s: Seq<Block>, clock: int) -> bool {
-    let end = s.last().next() - 1;
-    let right = s.len() - 1;
-    clock == s.last().start() || (s[0].start() <= clock && (clock <= end || (end != 0 && (right == 0 || clock < 2 * end))))
-}
-
-pub proof fn lemma_in_list_safe(s: Seq<Block>, clock: int)
-    requires
-        list_wf(s),
-        in_list(s, clock),
-    ensures
-        fi_safe(s, clock),
-{
-}
-
 // ---------------------------------------------------------------------------------------------
 // real code: ids and blocks
 // ---------------------------------------------------------------------------------------------
@@ -695,12 +677,13 @@ impl ClientBlockList {
         ensures r == self.inner@.len(),
     @*/
 
+    // TOTAL: for EVERY clock, and for the empty list as well (`checked_sub(1)?`).  The only thing asked of a non-empty list is
+    // the representation invariant (without it `Block::clock_range` itself may overflow: `clock + len - 1`).
     /*@extract yrs/src/block_store.rs | impl ClientBlockList | fn find_index | label=ClientBlockList.find_index | rules=SUB(from=(start, end) = block.clock_range();;to=let vx_cr = block.clock_range(); start = vx_cr.0; end = vx_cr.1)
     @ret r
     @sig
         requires
-            list_wf(self.inner@),
-            fi_safe(self.inner@, clock as int),
+            self.inner@.len() == 0 || list_wf(self.inner@),
         ensures
             r is Some <==> in_list(self.inner@, clock as int),
             r is Some ==> r.unwrap() < self.inner@.len()
@@ -709,19 +692,16 @@ impl ClientBlockList {
         let ghost s = self.inner@;
         proof {
             axiom_block_vec_len_bound(&self.inner);
-            lemma_list_sorted(s);
+            if s.len() > 0 { lemma_list_sorted(s); }
         }
     @before 1 `stmt:let mid`
         proof {
-            // the interpolated first probe: clock / end is 0 below the last clock of the list and 1 from there up to twice
-            // that clock (integer division)
+            // the interpolated first probe: clock / end is 0 below the last clock of the list and 1 at it (integer division)
             let e = s.last().next() - 1;
             if e > 0 {
                 assert(clock < e ==> clock as int / e == 0) by (nonlinear_arith) requires e > 0, clock >= 0;
-                assert(e <= clock < 2 * e ==> clock as int / e == 1) by (nonlinear_arith) requires e > 0;
+                assert(clock == e ==> clock as int / e == 1) by (nonlinear_arith) requires e > 0;
             }
-            assert(forall|q: int| #[trigger] (q * 0) == 0) by (nonlinear_arith);
-            assert(forall|q: int| #[trigger] (q * 1) == q) by (nonlinear_arith);
             assert(forall|k: int| #[trigger] (0 * k) == 0) by (nonlinear_arith);
             assert(forall|k: int| #[trigger] (1 * k) == k) by (nonlinear_arith);
         }
@@ -735,7 +715,6 @@ impl ClientBlockList {
             right < s.len(),
             left <= right + 1,
             left <= right ==> left <= mid <= right,
-            s[0].start() <= clock,
             forall|i: int| 0 <= i < left ==> (#[trigger] s[i]).next() <= clock,
             forall|i: int| right < i < s.len() ==> clock < (#[trigger] s[i]).start(),
         decreases right + 1 - left,
@@ -754,8 +733,7 @@ impl ClientBlockList {
     @ret r
     @sig
         requires
-            list_wf(self.inner@),
-            fi_safe(self.inner@, clock as int),
+            self.inner@.len() == 0 || list_wf(self.inner@),
         ensures
             r is Some <==> in_list(self.inner@, clock as int),
             r is Some ==> r.unwrap().cell.start() <= clock < r.unwrap().cell.next()
@@ -764,14 +742,14 @@ impl ClientBlockList {
 }
 
 // The FIRST PROBE of `find_index` once more, lifted on its own (R18 statement region; same source text): the interpolation
-// `(clock / end) * right`.  Its precondition is the part of `fi_safe` that concerns it; the result must be a valid index.
+// `(clock / end) * right`.  It is reached with `clock <= end` (the branch `clock > end` returns None before it) and
+// `clock != start <= end`, hence `end > 0` (the code's own comment); the result must be a valid index.
 /*@extract yrs/src/block_store.rs | impl ClientBlockList | region find_index | stmt=stmt:let mid | tail=mid | label=find_index_first_probe
 @header
     fn find_index_first_probe(clock: u32, end: u32, right: usize) -> (r: usize)
 @sig
     requires
-        clock <= end || (end != 0 && (right == 0 || clock < 2 * end)),
-        // (`clock == end == 0` is the early return `start == clock`)
+        clock <= end,
         end != 0,
     ensures
         r <= right,
@@ -779,30 +757,31 @@ impl ClientBlockList {
     proof {
         let e = end as int;
         assert(clock < e ==> clock as int / e == 0) by (nonlinear_arith) requires e > 0, clock >= 0;
-        assert(e <= clock < 2 * e ==> clock as int / e == 1) by (nonlinear_arith) requires e > 0;
-        assert(forall|q: int| #[trigger] (q * 0) == 0) by (nonlinear_arith);
-        assert(forall|q: int| #[trigger] (q * 1) == q) by (nonlinear_arith);
+        assert(clock == e ==> clock as int / e == 1) by (nonlinear_arith) requires e > 0;
         assert(forall|k: int| #[trigger] (0 * k) == 0) by (nonlinear_arith);
         assert(forall|k: int| #[trigger] (1 * k) == k) by (nonlinear_arith);
     }
 @*/
 
 // One STEP of `find_index` once more, lifted on its own (R18 statement region; same source text): the body of the search
-// loop.  As a function of its own its effect is a CONTRACT clause: a probe either answers with the block that contains the
-// clock, or it narrows the search range [left, right] strictly (progress) without dropping a block that contains the clock.
-// (`return Some(mid)` is spelled `return (Some(mid), left, right, mid)`: the step returns the answer and the new range.)
-/*@extract yrs/src/block_store.rs | impl ClientBlockList | region find_index | stmt=stmt:assign block | upto=stmt:assign mid | tail=(None, left, right, mid) | label=find_index_step | rules=SUB(from=unsafe { &*self.inner[mid].get() };;to=&this.inner[mid]) SUB(from=(start, end) = block.clock_range();;to=let vx_cr = block.clock_range(); start = vx_cr.0; end = vx_cr.1) SUB(from=return Some(mid);;to=return (Some(mid), left, right, mid))
+// loop.  As a function of its own its effect is a CONTRACT clause: a probe either ends the search -- with the block that
+// contains the clock, or with None because the clock lies below the first block -- or it narrows the search range
+// [left, right] strictly (progress) without dropping a block that contains the clock.
+// (The step returns (Some(answer of find_index) | None = go on, left, right, mid): `return Some(mid)` is spelled
+// `return (Some(Some(mid)), left, right, mid)` and `mid.checked_sub(1)?` is spelled as the match it abbreviates.)
+/*@extract yrs/src/block_store.rs | impl ClientBlockList | region find_index | stmt=stmt:assign block | upto=stmt:assign mid | tail=(None, left, right, mid) | label=find_index_step | rules=SUB(from=unsafe { &*self.inner[mid].get() };;to=&this.inner[mid]) SUB(from=(start, end) = block.clock_range();;to=let vx_cr = block.clock_range(); start = vx_cr.0; end = vx_cr.1) SUB(from=return Some(mid);;to=return (Some(Some(mid)), left, right, mid)) SUB(from=mid.checked_sub(1)?;;to=match mid.checked_sub(1) { Some(vx_m) => vx_m, None => return (Some(None), left, right, mid) })
 @header
-    fn find_index_step<'a>(this: &'a ClientBlockList, clock: u32, mut left: usize, mut right: usize, mut mid: usize, mut block: &'a Block, mut start: u32, mut end: u32) -> (r: (Option<usize>, usize, usize, usize))
+    fn find_index_step<'a>(this: &'a ClientBlockList, clock: u32, mut left: usize, mut right: usize, mut mid: usize, mut block: &'a Block, mut start: u32, mut end: u32) -> (r: (Option<Option<usize>>, usize, usize, usize))
 @sig
     requires
         list_wf(this.inner@),
         this.inner@.len() <= usize::MAX / 2,
         left <= mid <= right < this.inner@.len(),
-        this.inner@[0].start() <= clock,
     ensures
-        // an answer is the block that contains the clock
-        r.0 is Some ==> r.0 == Some(mid) && this.inner@[mid as int].start() <= clock < this.inner@[mid as int].next(),
+        // an answer Some(i) is the block that contains the clock
+        r.0 is Some && r.0.unwrap() is Some ==> r.0 == Some(Some(mid)) && this.inner@[mid as int].start() <= clock < this.inner@[mid as int].next(),
+        // the answer None is given only for a clock below the first block
+        r.0 is Some && r.0.unwrap() is None ==> clock < this.inner@[0].start(),
         // otherwise the range shrinks strictly, stays inside the old one, the next probe lies in it ...
         r.0 is None ==> left <= r.1 && r.2 <= right && r.1 <= r.2 + 1 && r.2 + 1 - r.1 < right + 1 - left && (r.1 <= r.2 ==> r.1 <= r.3 <= r.2),
         // ... and no block that contains the clock is dropped from it
@@ -1865,7 +1844,6 @@ impl BlockStore {
             assert(list.inner@ == s0);
             axiom_block_vec_len_bound(&list.inner);
             lemma_fits_in_list(s0, block);
-            lemma_in_list_safe(s0, block.start());
         }
     @after 1 `stmt:let index`
         proof {
@@ -1923,6 +1901,10 @@ impl VarInt for u32 {
 }
 
 impl VarInt for usize {
+    open spec fn vx_val(&self) -> int { *self as int }
+}
+
+impl VarInt for i32 {
     open spec fn vx_val(&self) -> int { *self as int }
 }
 
@@ -2029,7 +2011,36 @@ impl<'a> ItemSlice<'a> {
     @*/
 }
 
+impl<'a> ItemSlice<'a> {
+    /*@extract yrs/src/slice.rs | impl ItemSlice | fn clock_end | label=ItemSlice.clock_end
+    @ret r
+    @sig
+        requires self.wf(),
+        ensures r == self.ptr.id.clock + self.end,
+    @*/
+
+    // (as in unit header, H4: the function's own debug_assert admits count == len, for which `self.end -= count` underflows
+    // when start == 0; the weakest precondition is count <= end)
+    /*@extract yrs/src/slice.rs | impl ItemSlice | fn trim_end | label=ItemSlice.trim_end
+    @sig
+        requires old(self).wf(), count <= old(self).spec_len(), count <= old(self).end,
+        ensures
+            final(self).ptr == old(self).ptr,
+            final(self).start == old(self).start,
+            final(self).end == old(self).end - count,
+    @*/
+}
+
 impl BlockRange {
+    /*@extract yrs/src/block.rs | impl BlockRange | fn trim_end | label=BlockRange.trim_end
+    @sig
+        requires count <= old(self).len,
+        ensures
+            final(self).client == old(self).client,
+            final(self).clock == old(self).clock,
+            final(self).len == old(self).len - count,
+    @*/
+
     /*@extract yrs/src/block.rs | impl BlockRange | fn trim_start | label=BlockRange.trim_start
     @sig
         requires old(self).clock + old(self).len <= u32::MAX, count <= old(self).len,
@@ -2055,6 +2066,25 @@ pub open spec fn slice_from<'a>(b: &'a Block, off: u32) -> BlockSlice<'a> {
         Block::Item(x) => BlockSlice::Item(ItemSlice { ptr: &**x, start: off, end: (x.len - 1) as u32 }),
         Block::GC(r) => BlockSlice::GC(BlockRange { client: r.client, clock: (r.clock + off) as u32, len: (r.len - off) as u32 }),
         Block::Skip(r) => BlockSlice::Skip(BlockRange { client: r.client, clock: (r.clock + off) as u32, len: (r.len - off) as u32 }),
+    }
+}
+
+/// the slice of the block without its last `cnt` clocks
+pub open spec fn slice_to<'a>(b: &'a Block, cnt: u32) -> BlockSlice<'a> {
+    match b {
+        Block::Item(x) => BlockSlice::Item(ItemSlice { ptr: &**x, start: 0, end: (x.len - 1 - cnt) as u32 }),
+        Block::GC(r) => BlockSlice::GC(BlockRange { client: r.client, clock: r.clock, len: (r.len - cnt) as u32 }),
+        Block::Skip(r) => BlockSlice::Skip(BlockRange { client: r.client, clock: r.clock, len: (r.len - cnt) as u32 }),
+    }
+}
+
+/// what is written for the block `b` without its last `cnt` clocks: Item -> the item slice [0 ..= len-1-cnt] (abstract),
+/// GC -> Info(0) Len(len - cnt), Skip -> Info(10) Var(len - cnt)
+pub open spec fn block_tokens_to(b: Block, cnt: u32) -> Seq<Tok> {
+    match b {
+        Block::Item(x) => item_slice_toks(*x, 0, (x.len - 1 - cnt) as u32),
+        Block::Skip(r) => seq![Tok::Info(10), Tok::Var(r.len - cnt)],
+        Block::GC(r) => seq![Tok::Info(0), Tok::Len((r.len - cnt) as u32)],
     }
 }
 
@@ -2094,13 +2124,34 @@ impl<'a> BlockSlice<'a> {
             forall|b: &'a Block| #![trigger slice_of(b)] *old(self) == slice_of(b) ==> *final(self) == slice_from(b, count),
     @*/
 
+    /*@extract yrs/src/slice.rs | impl BlockSlice | fn clock_end | label=BlockSlice.clock_end
+    @ret r
+    @sig
+        requires
+            exists|b: &'a Block| #![trigger slice_of(b)] *self == slice_of(b) && b.ok(),
+        ensures
+            forall|b: &'a Block| #![trigger slice_of(b)] *self == slice_of(b) ==> r == b.next() - 1,
+    @*/
+
+    /*@extract yrs/src/slice.rs | impl BlockSlice | fn trim_end | label=BlockSlice.trim_end
+    @sig
+        requires
+            exists|b: &'a Block| #![trigger slice_of(b)] *old(self) == slice_of(b) && b.ok() && count < b.blen(),
+        ensures
+            forall|b: &'a Block| #![trigger slice_of(b)] *old(self) == slice_of(b) ==> *final(self) == slice_to(b, count),
+    @*/
+
+    // the slice is a block cut at its start (`slice_from`) or cut at its end (`slice_to`)
     /*@extract yrs/src/slice.rs | impl BlockSlice | fn encode | label=BlockSlice.encode | rules=SUB(from=s.encode(encoder);;to=E::encode_item_slice(s, encoder))
     @sig
         requires
-            exists|b: &'a Block, off: u32| #![trigger slice_from(b, off)] *self == slice_from(b, off) && block_encodable(*b, off),
+            (exists|b: &'a Block, off: u32| #![trigger slice_from(b, off)] *self == slice_from(b, off) && block_encodable(*b, off))
+                || (exists|b: &'a Block, cnt: u32| #![trigger slice_to(b, cnt)] *self == slice_to(b, cnt) && block_encodable(*b, cnt)),
         ensures
             forall|b: &'a Block, off: u32| #![trigger slice_from(b, off)] *self == slice_from(b, off) && block_encodable(*b, off)
                 ==> final(encoder).log() == old(encoder).log() + block_tokens(*b, off),
+            forall|b: &'a Block, cnt: u32| #![trigger slice_to(b, cnt)] *self == slice_to(b, cnt) && block_encodable(*b, cnt)
+                ==> final(encoder).log() == old(encoder).log() + block_tokens_to(*b, cnt),
     @*/
 }
 
@@ -2120,6 +2171,15 @@ pub open spec fn no_unmatched_zero(local: Map<ClientID, u32>, remote: Map<Client
     forall|c: ClientID| local.contains_key(c) && local[c] == 0 ==> remote.contains_key(c)
 }
 
+// ---- iteration over a HashMap (vstd's HashMap::iter: a duplicate-free sequence of exactly the map's (key, value) pairs);
+// same predicates as in units sv / upd
+pub open spec fn hiter_of<V>(s: Seq<(&ClientID, &V)>, m: Map<ClientID, V>) -> bool {
+    &&& s.len() == m.len()
+    &&& s.no_duplicates()
+    &&& forall|i: int| 0 <= i < s.len() ==> m.contains_key(*(#[trigger] s[i]).0) && m[*s[i].0] == *s[i].1
+    &&& forall|k: ClientID| m.contains_key(k) ==> exists|i: int| 0 <= i < s.len() && *(#[trigger] s[i]).0 == k
+}
+
 impl StateVector {
     /*@extract yrs/src/state_vector.rs | impl StateVector | fn get | label=StateVector.get
     @ret r
@@ -2135,8 +2195,21 @@ impl StateVector {
             r <==> self@.contains_key(*client_id),
     @*/
 
-    // (callee of the stub `diff_state_vectors` only; no contract needed here)
+    // the iterator enumerates the map (as in unit sv)
     /*@extract yrs/src/state_vector.rs | impl StateVector | fn iter | label=StateVector.iter
+    @ret r
+    @sig
+        ensures
+            hiter_of(r.remaining(), self@),
+            r.obeys_prophetic_iter_laws(),
+            r.decrease() is Some,
+    @*/
+
+    /*@extract yrs/src/state_vector.rs | impl StateVector | fn len | label=StateVector.len
+    @ret r
+    @sig
+        ensures
+            r == self@.len(),
     @*/
 }
 
@@ -2416,7 +2489,6 @@ impl Store {
     proof {
         axiom_block_vec_len_bound(&list.inner);
         lemma_fits_in_list(s0, block);
-        lemma_in_list_safe(s0, block.start());
     }
 @after 1 `stmt:let index`
     proof {
@@ -2481,6 +2553,423 @@ impl Store {
         assert(bs[i as int].ok());
         assert(slice_of(&blocks.inner[i as int]) == slice_from(&blocks.inner[i as int], 0));
         assert(block_encodable(bs[i as int], 0));
+    }
+@*/
+
+// ---------------------------------------------------------------------------------------------
+// Store::write_blocks_to: the snapshot encoder (everything BELOW the snapshot's clocks)
+// ---------------------------------------------------------------------------------------------
+pub open spec fn min_u32(a: u32, b: u32) -> u32 {
+    if a <= b { a } else { b }
+}
+
+/// every list starts at clock 0.  Not needed by any other function of the unit; `write_blocks_to` writes `Var(0)` as the first
+/// clock of a section and looks up `clock - 1 >= 0`, so it relies on it.  Every list built by the crate satisfies it: local
+/// clocks start at 0 and `Update::integrate` fills the hole below the first remote block with a Skip from `local_clock == 0`.
+pub open spec fn lists_from_zero(cl: Map<ClientID, ClientBlockList>) -> bool {
+    forall|c: ClientID| #[trigger] cl.contains_key(c) ==> cl[c].inner@[0].start() == 0
+}
+
+/// `(c, k)` is listed: the snapshot lists `c`, the store knows `c`, and k = min(snapshot clock, first gap) is not 0
+pub open spec fn snap_has(cl: Map<ClientID, ClientBlockList>, snap: Map<ClientID, u32>, c: ClientID, k: u32) -> bool {
+    snap.contains_key(c) && cl.contains_key(c) && k == min_u32(snap[c], first_gap(cl[c].inner@) as u32) && k > 0
+}
+
+pub open spec fn snap_inv(d: Seq<(ClientID, u32)>, cl: Map<ClientID, ClientBlockList>, snap: Map<ClientID, u32>, seen: Set<ClientID>) -> bool {
+    &&& forall|c: ClientID, k: u32| #[trigger] d.contains((c, k)) <==> seen.contains(c) && snap_has(cl, snap, c, k)
+    &&& forall|i: int, j: int| 0 <= i < j < d.len() ==> (#[trigger] d[i]).0 != (#[trigger] d[j]).0
+}
+
+/// `d` lists exactly the clamped snapshot clocks, highest client id first
+pub open spec fn snap_listing(d: Seq<(ClientID, u32)>, cl: Map<ClientID, ClientBlockList>, snap: Map<ClientID, u32>) -> bool {
+    &&& forall|c: ClientID, k: u32| #[trigger] d.contains((c, k)) <==> snap_has(cl, snap, c, k)
+    &&& forall|i: int, j: int| 0 <= i < j < d.len() ==> (#[trigger] d[i]).0.0 > (#[trigger] d[j]).0.0
+}
+
+/// a client not looked at before is looked at and `(c, k)` is pushed
+pub proof fn lemma_snap_push(d: Seq<(ClientID, u32)>, cl: Map<ClientID, ClientBlockList>, snap: Map<ClientID, u32>, seen: Set<ClientID>, c: ClientID, k: u32)
+    requires
+        snap_inv(d, cl, snap, seen),
+        !seen.contains(c),
+        snap_has(cl, snap, c, k),
+    ensures
+        snap_inv(d.push((c, k)), cl, snap, seen.insert(c)),
+{
+    let e = d.push((c, k));
+    let seen2 = seen.insert(c);
+    assert forall|i: int| 0 <= i < d.len() implies (#[trigger] d[i]).0 != c by {
+        if d[i].0 == c { assert(d.contains((c, d[i].1))); }
+    }
+    assert forall|x: ClientID, y: u32| #[trigger] e.contains((x, y)) <==> seen2.contains(x) && snap_has(cl, snap, x, y) by {
+        assert(d.contains((x, y)) <==> seen.contains(x) && snap_has(cl, snap, x, y));
+        if e.contains((x, y)) {
+            let i = choose|i: int| 0 <= i < e.len() && e[i] == (x, y);
+            if i < d.len() { assert(d[i] == (x, y)); assert(d.contains((x, y))); }
+        }
+        if d.contains((x, y)) {
+            let i = choose|i: int| 0 <= i < d.len() && d[i] == (x, y);
+            assert(e[i] == (x, y));
+        }
+        if x == c && y == k { assert(e[d.len() as int] == (x, y)); }
+    }
+    assert forall|i: int, j: int| 0 <= i < j < e.len() implies (#[trigger] e[i]).0 != (#[trigger] e[j]).0 by {
+        if j < d.len() { assert(d[i].0 != d[j].0); } else { assert(e[i] == d[i]); }
+    }
+}
+
+/// a client not looked at before is looked at and nothing is pushed
+pub proof fn lemma_snap_skip(d: Seq<(ClientID, u32)>, cl: Map<ClientID, ClientBlockList>, snap: Map<ClientID, u32>, seen: Set<ClientID>, c: ClientID)
+    requires
+        snap_inv(d, cl, snap, seen),
+        forall|k: u32| !snap_has(cl, snap, c, k),
+    ensures
+        snap_inv(d, cl, snap, seen.insert(c)),
+{
+    let seen2 = seen.insert(c);
+    assert forall|x: ClientID, y: u32| #[trigger] d.contains((x, y)) <==> seen2.contains(x) && snap_has(cl, snap, x, y) by {
+        assert(d.contains((x, y)) <==> seen.contains(x) && snap_has(cl, snap, x, y));
+    }
+}
+
+/// `sort_by` keeps the elements; without a client twice, `>=` is `>`
+pub proof fn lemma_sorted_perm(d0: Seq<(ClientID, u32)>, d: Seq<(ClientID, u32)>)
+    requires
+        forall|i: int, j: int| 0 <= i < j < d0.len() ==> (#[trigger] d0[i]).0 != (#[trigger] d0[j]).0,
+        d.len() == d0.len(),
+        exists|p: Seq<int>| is_permutation(p, d0.len() as int) && forall|i: int| 0 <= i < p.len() ==> #[trigger] d[i] == d0[p[i]],
+        forall|i: int, j: int| 0 <= i < j < d.len() ==> (#[trigger] d[i]).0.0 >= (#[trigger] d[j]).0.0,
+    ensures
+        forall|x: (ClientID, u32)| #[trigger] d.contains(x) <==> d0.contains(x),
+        forall|i: int, j: int| 0 <= i < j < d.len() ==> (#[trigger] d[i]).0.0 > (#[trigger] d[j]).0.0,
+{
+    let p = choose|p: Seq<int>| is_permutation(p, d0.len() as int) && forall|i: int| 0 <= i < p.len() ==> #[trigger] d[i] == d0[p[i]];
+    assert forall|x: (ClientID, u32)| #[trigger] d.contains(x) <==> d0.contains(x) by {
+        if d.contains(x) {
+            let i = choose|i: int| 0 <= i < d.len() && d[i] == x;
+            assert(d[i] == d0[p[i]]);
+        }
+        if d0.contains(x) {
+            let i0 = choose|i: int| 0 <= i < d0.len() && d0[i] == x;
+            assert(perm_hits(p, i0));
+            let i = choose|i: int| 0 <= i < p.len() && #[trigger] p[i] == i0;
+            assert(d[i] == d0[p[i]]);
+        }
+    }
+    assert forall|i: int, j: int| 0 <= i < j < d.len() implies (#[trigger] d[i]).0.0 > (#[trigger] d[j]).0.0 by {
+        assert(d[i] == d0[p[i]] && d[j] == d0[p[j]]);
+        assert(p[i] != p[j]);
+        if p[i] < p[j] { assert(d0[p[i]].0 != d0[p[j]].0); } else { assert(d0[p[j]].0 != d0[p[i]].0); }
+        assert(d[i].0.0 >= d[j].0.0);
+    }
+}
+
+/// one client section of the snapshot encoding: the client, the (exclusive) end clock, the client's list and the index of the
+/// last written block
+pub struct SectionTo {
+    pub client: ClientID,
+    pub clock: u32,
+    pub blocks: Seq<Block>,
+    pub last: int,
+}
+
+pub open spec fn section_to_of(cl: Map<ClientID, ClientBlockList>, c: ClientID, k: u32) -> SectionTo {
+    SectionTo { client: c, clock: k, blocks: cl[c].inner@, last: block_idx(cl[c].inner@, k - 1) }
+}
+
+pub open spec fn sections_to(cl: Map<ClientID, ClientBlockList>, d: Seq<(ClientID, u32)>) -> Seq<SectionTo> {
+    Seq::new(d.len(), |i: int| section_to_of(cl, d[i].0, d[i].1))
+}
+
+/// number of blocks, client, first clock 0
+pub open spec fn emit_to_head(l: Seq<Tok>, e: SectionTo) -> Seq<Tok> {
+    l.push(Tok::Var(e.last + 1)).push(Tok::Client(e.client)).push(Tok::Var(0))
+}
+
+/// ... the blocks 0 .. last-1 whole, the last one without the clocks from `clock` on
+pub open spec fn emit_section_to(l: Seq<Tok>, e: SectionTo) -> Seq<Tok> {
+    emit_rest(emit_to_head(l, e), e.blocks, 0, e.last) + block_tokens_to(e.blocks[e.last], (e.blocks[e.last].next() - e.clock) as u32)
+}
+
+pub open spec fn emit_sections_to(l: Seq<Tok>, es: Seq<SectionTo>, n: int) -> Seq<Tok>
+    decreases n,
+{
+    if n <= 0 { l } else { emit_section_to(emit_sections_to(l, es, n - 1), es[n - 1]) }
+}
+
+/// everything `write_blocks_to` appends
+pub open spec fn emit_all_to(l: Seq<Tok>, es: Seq<SectionTo>) -> Seq<Tok> {
+    emit_sections_to(l.push(Tok::Var(es.len() as int)), es, es.len() as int)
+}
+
+/// a listed client: its clamped clock lies in (0, first_gap], so `clock - 1` lies in the list, below the first gap
+pub proof fn lemma_section_to_in_list(cl: Map<ClientID, ClientBlockList>, snap: Map<ClientID, u32>, c: ClientID, k: u32)
+    requires
+        lists_wf(cl),
+        lists_from_zero(cl),
+        snap_has(cl, snap, c, k),
+    ensures
+        cl.contains_key(c),
+        0 < k <= first_gap(cl[c].inner@) <= list_clock(cl[c].inner@),
+        in_list(cl[c].inner@, k - 1),
+{
+    lemma_first_gap_meaning(cl[c].inner@);
+}
+
+/// clock `k` is written by the section `e`
+pub open spec fn section_to_sends(e: SectionTo, k: int) -> bool {
+    exists|j: int| 0 <= j <= e.last && (#[trigger] e.blocks[j]).start() <= k < e.blocks[j].next() && k < e.clock
+}
+
+/// `write_blocks_to`, read over the clocks.  For a listed client with the clamped snapshot clock k: the section writes EXACTLY
+/// the clocks 0 .. k-1 (every id below the clamped snapshot clock, nothing at or above), all of them integrated: no Skip block
+/// is written (k <= first gap); the reader, which starts at clock 0 and adds the lengths, re-derives every block's start.
+pub proof fn lemma_section_to_exact(cl: Map<ClientID, ClientBlockList>, snap: Map<ClientID, u32>, c: ClientID, k: u32)
+    requires
+        lists_wf(cl),
+        lists_from_zero(cl),
+        snap_has(cl, snap, c, k),
+    ensures
+        cl.contains_key(c),
+        ({
+            let e = section_to_of(cl, c, k);
+            &&& 0 <= e.last < e.blocks.len()
+            &&& e.blocks[e.last].start() <= k - 1 < e.blocks[e.last].next()
+            &&& forall|kk: int| #![trigger section_to_sends(e, kk)] section_to_sends(e, kk) <==> 0 <= kk < k
+            &&& forall|kk: int| 0 <= kk < k ==> #[trigger] carried(e.blocks, kk)
+            &&& forall|j: int| 0 <= j <= e.last ==> !(#[trigger] e.blocks[j]).skip()
+        }),
+{
+    lemma_section_to_in_list(cl, snap, c, k);
+    let e = section_to_of(cl, c, k);
+    let s = e.blocks;
+    assert(list_wf(s));
+    lemma_list_sorted(s);
+    lemma_first_gap_meaning(s);
+    lemma_covered(s, s.len() - 1, k - 1);
+    let last = e.last;
+    assert(0 <= last < s.len() && s[last].start() <= k - 1 < s[last].next());
+    assert forall|kk: int| #![trigger section_to_sends(e, kk)] section_to_sends(e, kk) <==> 0 <= kk < k by {
+        if section_to_sends(e, kk) {
+            let j = choose|j: int| 0 <= j <= e.last && (#[trigger] e.blocks[j]).start() <= kk < e.blocks[j].next() && kk < e.clock;
+            assert(s[0].start() <= s[j].start());
+        }
+        if 0 <= kk < k {
+            lemma_covered(s, last, kk);
+            let j = choose|j: int| 0 <= j <= last && (#[trigger] s[j]).start() <= kk < s[j].next();
+            assert(0 <= j <= e.last && e.blocks[j].start() <= kk < e.blocks[j].next() && kk < e.clock);
+        }
+    }
+    assert forall|j: int| 0 <= j <= e.last implies !(#[trigger] e.blocks[j]).skip() by {
+        if s[j].skip() {
+            assert(s[j].ok());
+            assert(s[j].start() <= s[last].start());
+            assert(carried(s, s[j].start()));
+            let i = choose|i: int| 0 <= i < s.len() && !(#[trigger] s[i]).skip() && s[i].start() <= s[j].start() < s[i].next();
+            lemma_block_of(s, s[j].start(), i, j);
+        }
+    }
+}
+
+impl Store {
+    // `for (&client_id, &clock) in sv.iter()` is spelled with the two bindings copied out (Verus has no reference patterns);
+    // `blocks[i]` / `&blocks[last_idx]` (impl Index) are inlined to `blocks.inner[..]` (accessor body checked).
+    // DOMAIN RESTRICTION: `blocks.clock() + 1` is unchecked u32 addition: a client whose clock is u32::MAX overflows it.
+    /*@extract yrs/src/store.rs | impl Store | fn write_blocks_to | label=Store.write_blocks_to | skip=R6 | rules=INLINE(file=yrs/src/block_store.rs;;container=impl Index<usize> for ClientBlockList;;fn=index;;body=unsafe { &*self.inner[index].get() };;call=blocks[i];;to=blocks.inner[i]) INLINE(file=yrs/src/block_store.rs;;container=impl Index<usize> for ClientBlockList;;fn=index;;body=unsafe { &*self.inner[index].get() };;call=&blocks[last_idx];;to=&blocks.inner[last_idx])
+    @sig
+        requires
+            self.blocks.wf(),
+            items_ok(self.blocks.clients@),
+            lists_from_zero(self.blocks.clients@),
+            forall|c: ClientID| #[trigger] self.blocks.clients@.contains_key(c) ==> list_clock(self.blocks.clients@[c].inner@) < u32::MAX,
+        ensures
+            exists|d: Seq<(ClientID, u32)>| snap_listing(d, self.blocks.clients@, sv@)
+                && final(encoder).log() == emit_all_to(old(encoder).log(), sections_to(self.blocks.clients@, d)),
+    @after 1 `stmt:let diff`
+        let ghost cl = self.blocks.clients@;
+        let ghost snap = sv@;
+        let ghost mut vx_seen = Set::<ClientID>::empty();
+        proof {
+            assert(local_sv@ =~= store_sv(cl));
+            assert(diff@ =~= Seq::<(ClientID, u32)>::empty());
+        }
+    @loop 1 iter=it
+        invariant
+            cl == self.blocks.clients@,
+            snap == sv@,
+            local_sv@ == store_sv(cl),
+            lists_wf(cl),
+            hiter_of(it.snapshot@.remaining(), snap),
+            0 <= it.index@ <= it.snapshot@.remaining().len(),
+            forall|c: ClientID| vx_seen.contains(c) <==> visited(it.snapshot@.remaining(), it.index@ as int, c),
+            snap_inv(diff@, cl, snap, vx_seen),
+    @loopstart 1
+        let ghost n = it.index@ as int;
+        let ghost d_before = diff@;
+        let ghost rem = it.snapshot@.remaining();
+        proof {
+            assert(*rem[n].0 == *vx_c && *rem[n].1 == *vx_k);
+            assert(snap.contains_key(*vx_c) && snap[*vx_c] == *vx_k);
+            if vx_seen.contains(*vx_c) {
+                let j = choose|j: int| 0 <= j < n && *(#[trigger] rem[j]).0 == *vx_c;
+                assert(snap[*rem[j].0] == *rem[j].1 && snap[*rem[n].0] == *rem[n].1);
+                assert(rem[j] == rem[n]);
+            }
+            assert(!vx_seen.contains(*vx_c));
+        }
+    @loopend 1
+        proof {
+            let c = *vx_c;
+            if cl.contains_key(c) {
+                lemma_first_gap_meaning(cl[c].inner@);
+            }
+            if diff@ == d_before {
+                if forall|k: u32| !snap_has(cl, snap, c, k) {
+                    lemma_snap_skip(d_before, cl, snap, vx_seen, c);
+                }
+            } else {
+                let k = min_u32(snap[c], first_gap(cl[c].inner@) as u32);
+                if diff@ == d_before.push((c, k)) && snap_has(cl, snap, c, k) {
+                    lemma_snap_push(d_before, cl, snap, vx_seen, c, k);
+                }
+            }
+            let seen2 = vx_seen.insert(c);
+            assert forall|x: ClientID| seen2.contains(x) <==> visited(rem, n + 1, x) by {
+                lemma_visited_step(rem, n, x);
+            }
+            vx_seen = seen2;
+        }
+    @before 1 `stmt:call vx_sort_by_client_desc`
+        let ghost d0 = diff@;
+        proof {
+            assert(forall|c: ClientID| snap.contains_key(c) ==> vx_seen.contains(c));
+        }
+    @after 1 `stmt:call vx_sort_by_client_desc`
+        let ghost d = diff@;
+        let ghost es = sections_to(cl, d);
+        proof {
+            lemma_sorted_perm(d0, d);
+            assert forall|c: ClientID, k: u32| #[trigger] d.contains((c, k)) <==> snap_has(cl, snap, c, k) by {
+                assert(d.contains((c, k)) <==> d0.contains((c, k)));
+            }
+            assert(snap_listing(d, cl, snap));
+        }
+    @after 1 `stmt:call write_var`
+        let ghost l1 = encoder.log();
+    @loop 2 iter=it
+        invariant
+            it.seq() == d,
+            es == sections_to(cl, d),
+            cl == self.blocks.clients@,
+            self.blocks.wf(),
+            items_ok(cl),
+            lists_from_zero(cl),
+            forall|c: ClientID| #[trigger] cl.contains_key(c) ==> list_clock(cl[c].inner@) < u32::MAX,
+            snap_listing(d, cl, snap),
+            encoder.log() == emit_sections_to(l1, es, it.index@ as int),
+    @loopstart 2
+        let ghost n = it.index@ as int;
+        let ghost e = es[n];
+        let ghost lb = encoder.log();
+        let ghost bs = cl[client].inner@;
+        proof {
+            assert(d[n] == (client, clock));
+            assert(d.contains((client, clock)));
+            lemma_section_to_in_list(cl, snap, client, clock);
+            assert(list_wf(bs));
+            assert(e == section_to_of(cl, client, clock));
+        }
+    @after 1 `stmt:let last_idx`
+        proof {
+            axiom_block_vec_len_bound(&blocks.inner);
+            lemma_block_of(bs, e.clock - 1, last_idx as int, block_idx(bs, e.clock - 1));
+            assert(bs[last_idx as int].ok());
+        }
+    @before 3 `stmt:for`
+        let ghost l2 = encoder.log();
+    @loop 3 iter=it2
+        invariant
+            i - it2.index@ + it2.seq().len() == last_idx,
+            last_idx < bs.len(),
+            bs == blocks.inner@,
+            list_wf(bs),
+            cl.contains_key(client) && bs == cl[client].inner@,
+            items_ok(cl),
+            // whatever the first index of the loop is: the blocks from there up to i have been written whole
+            encoder.log() == emit_rest(l2, bs, i - it2.index@, i as int),
+    @loopstart 3
+        proof {
+            assert(bs[i as int].ok());
+            assert(slice_of(&blocks.inner[i as int]) == slice_from(&blocks.inner[i as int], 0));
+            assert(block_encodable(bs[i as int], 0));
+        }
+    @before 1 `stmt:call encode ~ slice.encode`
+        proof {
+            assert(block_encodable(*last_block, (last_block.next() - e.clock) as u32));
+        }
+    @*/
+}
+
+// Two STEPS of `write_blocks_to` once more, each lifted on its own (R18 statement regions; same source text).
+//   step 1: what is listed for one client of the snapshot: the clamped clock, unless it is 0 or the client is unknown
+/*@extract yrs/src/store.rs | impl Store | region write_blocks_to | stmt=stmt:if | label=write_blocks_to_entry
+@header
+    fn write_blocks_to_entry(local_sv: &StateVector, diff: &mut Vec<(ClientID, u32)>, client_id: ClientID, clock: u32)
+@sig
+    ensures
+        local_sv@.contains_key(client_id) && min_u32(clock, local_sv@[client_id]) > 0
+            ==> final(diff)@ == old(diff)@.push((client_id, min_u32(clock, local_sv@[client_id]))),
+        !(local_sv@.contains_key(client_id) && min_u32(clock, local_sv@[client_id]) > 0) ==> final(diff)@ == old(diff)@,
+@*/
+
+//   step 2: one client section (the body of the writing loop)
+/*@extract yrs/src/store.rs | impl Store | region write_blocks_to | stmt=stmt:let blocks | upto=stmt:call encode | uptonth=2 | label=write_blocks_to_section | rules=SUB(from=self.blocks;;to=this.blocks) INLINE(file=yrs/src/block_store.rs;;container=impl Index<usize> for ClientBlockList;;fn=index;;body=unsafe { &*self.inner[index].get() };;call=blocks[i];;to=blocks.inner[i]) INLINE(file=yrs/src/block_store.rs;;container=impl Index<usize> for ClientBlockList;;fn=index;;body=unsafe { &*self.inner[index].get() };;call=&blocks[last_idx];;to=&blocks.inner[last_idx])
+@header
+    fn write_blocks_to_section<E: Encoder>(this: &Store, encoder: &mut E, client: ClientID, clock: u32)
+@sig
+    requires
+        lists_wf(this.blocks.clients@),
+        items_ok(this.blocks.clients@),
+        this.blocks.clients@.contains_key(client),
+        list_clock(this.blocks.clients@[client].inner@) < u32::MAX,
+        // (what the listing guarantees, `lemma_section_to_in_list`)
+        0 < clock <= list_clock(this.blocks.clients@[client].inner@),
+        in_list(this.blocks.clients@[client].inner@, clock - 1),
+    ensures
+        final(encoder).log() == emit_section_to(old(encoder).log(), section_to_of(this.blocks.clients@, client, clock)),
+@start
+    let ghost cl = this.blocks.clients@;
+    let ghost e = section_to_of(cl, client, clock);
+    let ghost bs = cl[client].inner@;
+    proof {
+        assert(list_wf(bs));
+    }
+@after 1 `stmt:let last_idx`
+    proof {
+        axiom_block_vec_len_bound(&blocks.inner);
+        lemma_block_of(bs, e.clock - 1, last_idx as int, block_idx(bs, e.clock - 1));
+        assert(bs[last_idx as int].ok());
+    }
+@before 1 `stmt:for`
+    let ghost l2 = encoder.log();
+@loop 1 iter=it2
+    invariant
+        i - it2.index@ + it2.seq().len() == last_idx,
+        last_idx < bs.len(),
+        bs == blocks.inner@,
+        list_wf(bs),
+        cl.contains_key(client) && bs == cl[client].inner@,
+        items_ok(cl),
+        // whatever the first index of the loop is: the blocks from there up to i have been written whole
+        encoder.log() == emit_rest(l2, bs, i - it2.index@, i as int),
+@loopstart 1
+    proof {
+        assert(bs[i as int].ok());
+        assert(slice_of(&blocks.inner[i as int]) == slice_from(&blocks.inner[i as int], 0));
+        assert(block_encodable(bs[i as int], 0));
+    }
+@before 1 `stmt:call encode ~ slice.encode`
+    proof {
+        assert(block_encodable(*last_block, (last_block.next() - e.clock) as u32));
     }
 @*/
 
@@ -2579,15 +3068,6 @@ impl IdSet {
             forall|c: ClientID, k: int| #![trigger has_pt(final(self)@, c, k)] #![trigger has_pt(old(self)@, c, k)]
                 has_pt(final(self)@, c, k) <==> has_pt(old(self)@, c, k) || (c == id.client && in_block(id.clock, len, k)),
     @*/
-}
-
-// ---- iteration over a HashMap (vstd's HashMap::iter: a duplicate-free sequence of exactly the map's (key, value) pairs);
-// same predicates as in units sv / upd
-pub open spec fn hiter_of<V>(s: Seq<(&ClientID, &V)>, m: Map<ClientID, V>) -> bool {
-    &&& s.len() == m.len()
-    &&& s.no_duplicates()
-    &&& forall|i: int| 0 <= i < s.len() ==> m.contains_key(*(#[trigger] s[i]).0) && m[*s[i].0] == *s[i].1
-    &&& forall|k: ClientID| m.contains_key(k) ==> exists|i: int| 0 <= i < s.len() && *(#[trigger] s[i]).0 == k
 }
 
 /// the ranges `0 .. n` of the sequence cover clock `k`
@@ -3067,16 +3547,18 @@ impl TransactionMut {
                 == blocks_of(old(self).store.blocks.clients@, skip.client).push(mk_skip(skip.client, skip.clock + offset, skip.len - offset)),
     @*/
 
-    // FINDING F-BS2 (expected to FAIL: the precondition `block.ok()` of `BlockStore::push` at its call).  Everything a caller
-    // can be asked for is required -- except that the (trimmed) range is not empty: `Update::decode_block` accepts a GC block
-    // of length 0 from the wire and `Update::integrate` hands it over unchanged.
+    // (was FINDING F-BS2, repaired in /repo.)  `offset < gc.len` -- the trimmed range is NOT EMPTY, i.e. push's `block.ok()` -- is a
+    // precondition justified by the call sites: the only caller with a block from the wire is `Update::integrate` (offset 0),
+    // and `Update::decode_block` (update.rs) now returns Ok(None) for a GC / Skip block with `len == 0` ("an empty block has no
+    // effect on the document store"), so no zero-length block reaches integrate_gc; `integrate_item` falls back to
+    // `integrate_gc(item.range(), offset)` with an Item's range (len >= 1, offset 0).
     /*@extract yrs/src/block.rs | impl<'doc> TransactionMut<'doc> | fn integrate_gc | label=TransactionMut.integrate_gc
     @sig
         requires
             old(self).store.blocks.wf(),
             wf_map(old(self).delete_set@),
             wf_map(old(self).insert_set@),
-            offset <= gc.len,
+            offset < gc.len,
             gc.clock + gc.len <= u32::MAX,
             push_pos(blocks_of(old(self).store.blocks.clients@, gc.client), Block::GC(BlockRange { client: gc.client, clock: (gc.clock + offset) as u32, len: (gc.len - offset) as u32 })),
         ensures
@@ -3085,8 +3567,8 @@ impl TransactionMut {
 }
 
 impl BlockStore {
-    // FINDING F-BS1 (expected to FAIL: the callee precondition `fi_safe` of `ClientBlockList::get_block` at its one call).
-    // The contract is the one the doc comment promises ("Returns `None` if not such block could be found") for EVERY id.
+    // (was FINDING F-BS1, repaired in /repo: find_index is total.)  The contract is the one the doc comment promises ("Returns
+    // `None` if not such block could be found") for EVERY id.
     /*@extract yrs/src/block_store.rs | impl BlockStore | fn get_block | label=BlockStore.get_block
     @ret r
     @sig
